@@ -64,3 +64,5 @@ def build(u):
         emit_method(u, T, r'SourceMap\b', g, 'types::SourceMap::' + g, prep=prep_ssc if g == 'set_source_contents' else prep_get)
     for g in ['get_source', 'get_name', 'has_name']:
         emit_method(u, T, r"<'a> Token<'a>", g, 'types::Token::' + g)
+    for g in ['get_source_view', 'has_names']:
+        emit_method(u, T, r'SourceMap\b', g, 'types::SourceMap::' + g)
